@@ -2,14 +2,204 @@ import EdpVerif.Impl.TableTie
 import EdpVerif.Impl.Encode
 import EdpVerif.Impl.Den
 import EdpVerif.Spec.Etf
+import EdpVerif.Lemmas.RoundTrip
+import EdpVerif.Lemmas.Reencode
+import EdpVerif.Lemmas.EncErr
+import EdpVerif.Lemmas.SpecValid
 /-
 C01 — encode/decode round trip preserves the Erlang value of every term.
 Property theorems only; helper lemmas live in EdpVerif/Lemmas.
 -/
 namespace Edp.Props.C01
-open Edp
+open Edp Edp.Term
 
 /-- table tie re-checked against the source on every run -/
 theorem C01_tags_are_the_formats : Gen.VERSION = 131 ∧ Gen.SMALL_INTEGER_EXT = 97 ∧ Gen.NIL_EXT = 106 := by decide
+
+/-- decoding what the encoder wrote returns the term's wire form (`wire t`: the same term with integers beyond 32 bits
+as big integers, strings as binaries, the empty list as nil, improper lists with a nil tail as proper lists, maps
+re-inserted in arrival order) — for every well-formed term within the nesting limit and every behaviour `x` of
+the external calls.  `wfT` is documented in Lemmas/RoundTrip.lean (it excludes only what the Rust types cannot hold,
+plus the listed representable terms the library's own decoder refuses). -/
+theorem C01_roundtrip (x : Ext) (t : Term) (bs : Bytes) (hw : wfT t = true) (hd : dep t ≤ MAX_NESTING_DEPTH)
+    (he : encode t = .ok bs) : decode x bs = .ok (wire t) := by
+  unfold encode at he
+  cases h : enc [] t with
+  | error e => simp [h] at he
+  | ok b =>
+    simp [h] at he; subst he
+    have hl := tsz_le_length [] t b hw h
+    have := dec_enc x {} [] (cfgFor_nil _) (by simp) t b [] (b.length + 1 + x.extra) 0 hw (by omega) h (by omega)
+    simp only [List.append_nil] at this
+    simp [decode, decodeWith, this]
+
+/-- a term with an i64 beyond 32 bits, an empty list, a string, a map and an improper list with nil tail -/
+def ex1 : Term := .tuple [.int 1, .list [], .int 4294967296, .str [104, 105], .map [(.atom [97], .ilist [.int 2] .nil)]]
+
+example (x : Ext) : decode x [131, 104, 5, 97, 1, 106, 110, 5, 0, 0, 0, 0, 0, 1, 109, 0, 0, 0, 2, 104, 105,
+      116, 0, 0, 0, 1, 119, 1, 97, 108, 0, 0, 0, 1, 97, 2, 106] =
+    .ok (.tuple [.int 1, .nil, .big false [0, 0, 0, 0, 1], .bin [104, 105], .map [(.atom [97], .list [.int 2])]]) :=
+  C01_roundtrip x ex1 _ (by decide) (by decide) (by rfl)
+
+/-- the same through the zero-copy decoder (every tag the encoder emits without a cache is in its tag set) -/
+theorem C01_roundtrip_borrowed (x : Ext) (t : Term) (bs : Bytes) (hw : wfT t = true) (hd : dep t ≤ MAX_NESTING_DEPTH)
+    (he : encode t = .ok bs) : decodeBorrowed x bs = .ok (wire t) := by
+  unfold encode at he
+  cases h : enc [] t with
+  | error e => simp [h] at he
+  | ok b =>
+    simp [h] at he; subst he
+    have hl := tsz_le_length [] t b hw h
+    have := dec_enc x { borrowed := true } [] (cfgFor_nil _) (by simp) t b [] (b.length + 1 + x.extra) 0 hw (by omega) h (by omega)
+    simp only [List.append_nil] at this
+    simp [decodeBorrowed, decodeWith, this]
+
+example (x : Ext) : decodeBorrowed x [131, 104, 2, 97, 1, 106] = .ok (.tuple [.int 1, .nil]) :=
+  C01_roundtrip_borrowed x (.tuple [.int 1, .list []]) _ (by decide) (by decide) (by rfl)
+
+/-! ### the value is preserved -/
+
+/-- the decoded term denotes the same Erlang value as the original: for every well-formed term whose maps have
+pairwise strictly increasing keys (`sortedKeys`: under `Term.cmp`, on the keys as they come back from the wire).
+The guard is what makes `BTreeMap` re-insertion the identity; without it the decoder may reorder or merge entries
+(C03 known finding: numerically equal keys of different type). -/
+theorem C01_value_preserved (t : Term) (hw : wfT t = true) (hs : sortedKeys t = true) : den (wire t) = den t :=
+  den_wire t hw hs
+
+def ex2 : Term := .map [(.int 1, .str [104]), (.int 2, .int 5000000000), (.atom [97], .ilist [.int 2] (.list []))]
+
+theorem C01_ex2_sorted : sortedKeys ex2 = true := by
+  simp [ex2, sortedKeys, sortedKeysKV, sortedKeysL, pairwiseLt, allLt, wireKV, wire, wireL, Term.cmp, Term.norm, Term.cmpN]
+  decide
+
+example : wire ex2 = .map [(.int 1, .bin [104]), (.int 2, .big false [0, 242, 5, 42, 1]), (.atom [97], .list [.int 2])] := by
+  have h := insertAll_sorted _ (by simpa [ex2, sortedKeys, sortedKeysKV, sortedKeysL] using C01_ex2_sorted :
+    pairwiseLt (wireKV [(.int 1, .str [104]), (.int 2, .int 5000000000), (.atom [97], .ilist [.int 2] (.list []))]) = true)
+  simp only [ex2, wire, h]
+  simp [wireKV, wire, wireL, leN, sigLen]
+
+example : den (wire ex2) = den ex2 := C01_value_preserved ex2 (by decide) C01_ex2_sorted
+
+/-- normalisations: a string is the binary with the same bytes, the empty list is nil, and an i64 that comes back as a
+big integer is the same integer -/
+theorem C01_str_is_binary (s : Bytes) : den (.str s) = den (.bin s) := rfl
+
+theorem C01_empty_list_is_nil : den (.list []) = den .nil := rfl
+
+theorem C01_i64_as_big (i : Int) (h : -9223372036854775808 ≤ i ∧ i ≤ 9223372036854775807) :
+    den (wire (.int i)) = .int i := den_wire_int i h
+
+example : den (.big false [0, 242, 5, 42, 1]) = .int 5000000000 := by simp [den, bigVal, magVal]
+
+/-! ### re-encoding -/
+
+/-- re-encoding the decoded term yields the same bytes — for every term (no well-formedness needed) whose maps have
+increasing keys and that contains no improper list with no elements and a nil tail -/
+theorem C01_reencode (t : Term) (bs : Bytes) (hs : sortedKeys t = true) (hn : noEmptyImproper t = true)
+    (he : encode t = .ok bs) : encode (wire t) = .ok bs := by
+  unfold encode at he ⊢
+  cases h : enc [] t with
+  | error e => simp [h] at he
+  | ok b => simp [h] at he; subst he; simp [enc_wire [] t b hs hn h]
+
+example : ∃ bs, encode ex2 = .ok bs ∧ encode (wire ex2) = .ok bs :=
+  ⟨_, rfl, C01_reencode ex2 _ C01_ex2_sorted (by decide) rfl⟩
+
+/-- the full cycle: encode, decode with the library's decoder, encode again -/
+theorem C01_decode_then_reencode (x : Ext) (t t' : Term) (bs : Bytes) (hw : wfT t = true)
+    (hd : dep t ≤ MAX_NESTING_DEPTH) (hs : sortedKeys t = true) (hn : noEmptyImproper t = true)
+    (he : encode t = .ok bs) (hdec : decode x bs = .ok t') : encode t' = .ok bs := by
+  rw [C01_roundtrip x t bs hw hd he] at hdec
+  cases hdec
+  exact C01_reencode t bs hs hn he
+
+/-- the excluded shape is a genuine exception: `ImproperList{elements: [], tail: Nil}` is written as
+`108,0,0,0,0,106`, decoded as the empty list, and that is written as `106` -/
+theorem C01_reencode_not_for_empty_improper :
+    ∃ t bs, wfT t = true ∧ sortedKeys t = true ∧ encode t = .ok bs ∧ wire t = .list [] ∧ encode (.list []) = .ok [131, 106] ∧
+      bs ≠ [131, 106] :=
+  ⟨.ilist [] .nil, [131, 108, 0, 0, 0, 0, 106], by decide, by decide, rfl, rfl, rfl, by decide⟩
+
+/-! ### errors are size-limit errors, exactly -/
+
+/-- whenever the encoder reports an error — for ANY term, well-formed or not — the term contains a node that exceeds
+the limit the error names (`over e t`, Lemmas/EncErr.lean): `atomTooLarge` an atom name (of an atom, of a plain
+identifier's node, of a fun's module/function) longer than 65535 bytes; `binaryTooLarge` a binary, string or
+bit-string longer than `u32::MAX` bytes; `listTooLarge` / `tupleTooLarge` / `mapTooLarge` more than `u32::MAX`
+elements; `refTooLarge` a plain reference with more than 65535 id words -/
+theorem C01_error_only_for_size (t : Term) (e : EncErr) (h : encode t = .error e) : over e t = true := by
+  unfold encode at h
+  cases h1 : enc [] t with
+  | ok b => simp [h1] at h
+  | error e' => simp [h1] at h; subst h; exact enc_err [] t e' h1
+
+example : ∃ a : Bytes, encode (.tuple [.atom a]) = .error .atomTooLarge ∧ over .atomTooLarge (.tuple [.atom a]) = true := by
+  refine ⟨List.replicate 65536 97, ?_⟩
+  have h : (List.replicate 65536 (97 : UInt8)).length = 65536 := List.length_replicate
+  generalize List.replicate 65536 (97 : UInt8) = a at h
+  simp [encode, enc, encL, encAtom, indexOf?, u16max, over, overL, atomOver, h]
+
+/-- and exactly then: the encoder fails if and only if some limit is exceeded -/
+theorem C01_error_iff_over_limit (t : Term) : (∃ e, encode t = .error e) ↔ (∃ e, over e t = true) := by
+  constructor
+  · rintro ⟨e, h⟩; exact ⟨e, C01_error_only_for_size t e h⟩
+  · rintro ⟨e, h⟩
+    unfold encode
+    cases h1 : enc [] t with
+    | ok b => exact absurd h1 (enc_over t e b h)
+    | error e' => exact ⟨e', rfl⟩
+
+/-- within all limits the encoder succeeds -/
+theorem C01_ok_within_limits (t : Term) (h : ∀ e, over e t = false) : ∃ bs, encode t = .ok bs := by
+  cases h1 : encode t with
+  | ok b => exact ⟨b, rfl⟩
+  | error e => have := C01_error_only_for_size t e h1; rw [h e] at this; cases this
+
+/-- the atom-table error of the distribution-header encoder never comes out of the plain encoder -/
+theorem C01_never_too_many_atoms (t : Term) : encode t ≠ .error .tooManyAtoms := by
+  intro h
+  have := C01_error_only_for_size t _ h
+  rw [over_tooManyAtoms] at this
+  cases this
+
+/-! ### the bytes are a valid encoding of the term's value -/
+
+/-- the encoder's output is read by the INDEPENDENT reader of the External Term Format (`Spec.parseTop`, written from
+the format's documentation) as exactly the value the term denotes, with nothing left over — for every well-formed term
+(any nesting depth), any zlib behaviour of the reader.  Maps: the reader keeps arrival order and `den` keeps stored
+order, so the equality is on the nose, no key-order guard.  Two guards, both excluding representable terms:
+`finiteFloats` (NaN and the infinities are not Erlang floats; the encoder writes them without complaint, see
+`C01_valid_not_for_nan`) and `bs.length ≤ u32::MAX` (NEW_FUN_EXT carries its own size as `(len + 4) as u32`,
+silently truncated for a fun of 4 GiB or more). -/
+theorem C01_valid (env : Spec.Env) (t : Term) (bs : Bytes) (hw : wfT t = true) (hfin : finiteFloats t = true)
+    (he : encode t = .ok bs) (hsz : bs.length ≤ 4294967295) (hrefs : env.refs = []) :
+    Spec.parseTop env bs = some (den t, []) := by
+  unfold encode at he
+  cases h : enc [] t with
+  | error e => simp [h] at he
+  | ok b =>
+    simp [h] at he; subst he
+    exact specTop_enc env [] (by simpa using hrefs) (by simp) t b hw hfin h (by simp at hsz; omega)
+
+example : Spec.parseTop {} [131, 104, 5, 97, 1, 106, 110, 5, 0, 0, 0, 0, 0, 1, 109, 0, 0, 0, 2, 104, 105,
+      116, 0, 0, 0, 1, 119, 1, 97, 108, 0, 0, 0, 1, 97, 2, 106] = some (den ex1, []) :=
+  C01_valid {} ex1 _ (by decide) (by decide) (by rfl) (by decide) rfl
+
+/-- with an atom cache (distribution header): the reader resolves ATOM_CACHE_REF through the same table -/
+theorem C01_valid_cached (env : Spec.Env) (cache : List Bytes) (t : Term) (b r : Bytes) (hw : wfT t = true)
+    (hfin : finiteFloats t = true) (he : enc cache t = .ok b) (hsz : b.length ≤ 4294967295)
+    (hlen : cache.length ≤ 256) (hrefs : env.refs = cache.map cps) :
+    Spec.parse env (b.length + 1) (b ++ r) = some (den t, r) :=
+  spec_enc env cache hrefs hlen t b r (b.length + 1) hw hfin he (by omega)
+    (by have := tsz_le_length cache t b hw he; omega)
+
+example : Spec.parse { refs := [[97]] } 3 ([82, 0] ++ [7]) = some (.atom [97], [7]) :=
+  C01_valid_cached { refs := [[97]] } [[97]] (.atom [97]) [82, 0] [7] (by decide) (by decide) (by rfl) (by decide) (by decide) (by rfl)
+
+/-- the float guard is a genuine exception: a NaN is encoded without an error, and the bytes are not a valid encoding -/
+theorem C01_valid_not_for_nan :
+    ∃ t bs, wfT t = true ∧ encode t = .ok bs ∧ Spec.parseTop {} bs = none :=
+  ⟨.float 0x7FF8000000000000, [131, 70, 0x7F, 0xF8, 0, 0, 0, 0, 0, 0], by decide, rfl, by
+    simp [Spec.parseTop, Spec.parse, rdN]⟩
 
 end Edp.Props.C01
